@@ -14,32 +14,35 @@ Asym3 == -1..2
 VARIABLES fed, o3, o4, oF, def4
 vars == <<fed, o3, o4, oF, def4>>
 
-Init == /\ fed \in SeqsUpTo(Vals, MinLen, MaxLen)
-        /\ o3 = Process34(D0, fed, 3, FALSE)
-        /\ o4 = Process34(D0, fed, 4, FALSE)
-        /\ oF = ProcessF(F0, fed, FALSE)
-        /\ def4 = FourPointDef(TurnSeq(fed), <<>>)
-Next == UNCHANGED vars
+(* the signal grows sample by sample so that TLC's workers share the enumeration; every state is one signal *)
+Init == fed = <<>> /\ o3 = D0 /\ o4 = D0 /\ oF = F0 /\ def4 = [res |-> <<>>, cyc |-> <<>>]
+Next == /\ Len(fed) < MaxLen
+        /\ \E v \in Vals :
+             /\ fed' = Append(fed, v)
+             /\ o3' = Process34(D0, fed', 3, FALSE)
+             /\ o4' = Process34(D0, fed', 4, FALSE)
+             /\ oF' = ProcessF(F0, fed', FALSE)
+             /\ def4' = IF Len(fed') >= 2 THEN FourPointDef(TurnSeq(fed'), <<>>) ELSE [res |-> <<>>, cyc |-> <<>>]
 Spec == Init /\ [][Next]_vars
 
-FindTurnsAgree == TurnPosI(fed) = TurnPosD(fed)
-FourPointIsDefinition ==
+FindTurnsAgree == Len(fed) >= MinLen => TurnPosI(fed) = TurnPosD(fed)
+FourPointIsDefinition == Len(fed) >= MinLen =>
     /\ o4.cyc = def4.cyc
     /\ o4.rv = [k \in 1..Len(def4.res) |-> def4.res[k][1]]
     /\ ResidualIndex(o4) = [k \in 1..Len(def4.res) |-> def4.res[k][2]]
-ThreePointSameBag == BagOf(o3.cyc) = BagOf(o4.cyc) /\ o3.rv = o4.rv /\ ResidualIndex(o3) = ResidualIndex(o4)
+ThreePointSameBag == Len(fed) >= MinLen => BagOf(o3.cyc) = BagOf(o4.cyc) /\ o3.rv = o4.rv /\ ResidualIndex(o3) = ResidualIndex(o4)
 IdxBag(d) == BagOf([k \in 1..(2 * Len(d.cyc)) |-> IF k % 2 = 1 THEN d.cyc[(k + 1) \div 2][3] ELSE d.cyc[k \div 2][4]]
                    \o ResidualIndex(d))
-EveryTurnOnce ==
+EveryTurnOnce == Len(fed) >= MinLen =>
     LET ts == TurnSeq(fed)
         want == BagOf([k \in 1..Len(ts) |-> ts[k][2]])
     IN IdxBag(o3) = want /\ IdxBag(o4) = want
-IndexAddresses ==
+IndexAddresses == Len(fed) >= MinLen =>
   \A d \in {o3, o4} :
     /\ \A k \in 1..Len(d.cyc) : fed[d.cyc[k][3] + 1] = d.cyc[k][1] /\ fed[d.cyc[k][4] + 1] = d.cyc[k][2]
     /\ \A k \in 1..Len(d.rv) : fed[ResidualIndex(d)[k] + 1] = d.rv[k]
-FKMIsHCM == LET h == HCMDef(fed) IN oF.cyc = h.cyc /\ oF.rv = h.rv
-FKMEveryTurnOnce ==
+FKMIsHCM == Len(fed) >= MinLen => LET h == HCMDef(fed) IN oF.cyc = h.cyc /\ oF.rv = h.rv
+FKMEveryTurnOnce == Len(fed) >= MinLen =>
   LET tp == TurnPosD(fed)
       fl == [k \in 1..(2 * Len(oF.cyc)) |-> IF k % 2 = 1 THEN oF.cyc[(k + 1) \div 2][1] ELSE oF.cyc[k \div 2][2]]
   IN BagOf(fl \o oF.rv) = BagOf([k \in 1..Len(tp) |-> fed[tp[k]]])
@@ -47,5 +50,5 @@ FKMEveryTurnOnce ==
    and every closed cycle is a cycle the four point rule also closes on the same reversals or is held back in
    its residual -- stated as: FKM cycles are a sub-bag of the four-point cycles of the doubled signal is NOT claimed;
    only the bound is *)
-FKMCycleBound == \A k \in 1..Len(oF.cyc) : Abs(oF.cyc[k][1]) <= oF.mx /\ Abs(oF.cyc[k][2]) <= oF.mx
+FKMCycleBound == Len(fed) >= MinLen => \A k \in 1..Len(oF.cyc) : Abs(oF.cyc[k][1]) <= oF.mx /\ Abs(oF.cyc[k][2]) <= oF.mx
 =============================================================================
